@@ -21,7 +21,8 @@ def lam_alphabet(seed):
 
 
 OFFSETS = {'0': 0.0, '+d': 0.2e-3, '-d': -0.2e-3}
-SUBS = {'none': None, 'full': ('0', '1'), 'lo': ('0', '3/10'), 'mid': ('3/10', '11/20'), 'hi': ('11/20', '1')}
+SUBS = {'none': None, 'full': ('0', '1'), 'lo': ('0', '3/10'), 'mid': ('3/10', '11/20'), 'hi': ('11/20', '1'),
+        'wide': ('0', '3/5')}     # with geometry g2 (a < b): y2 lies between a and b
 FLAGS = rp.FLAG_NAMES
 
 
